@@ -15,6 +15,7 @@ import (
 
 	"sync/atomic"
 
+	"github.com/douban/gobeansdb/cmem"
 	"github.com/douban/gobeansdb/config"
 	"github.com/douban/gobeansdb/loghub"
 	"github.com/douban/gobeansdb/utils"
@@ -123,6 +124,11 @@ func (c *ServerConn) ServeOnce(storageClient StorageClient, stats *Stats) (err e
 			err = nil
 		}
 	} else if overdue(req.ReceiveTime, t) {
+		if req.Item != nil && req.Cmd != "incr" && req.Cmd != "decr" {
+			// the value was received (and accounted) but will not be processed
+			cmem.DBRL.SetData.SubSizeAndCount(req.Item.CArray.Cap)
+			req.Item.CArray.Free()
+		}
 		req.SetStat("recv_timeout")
 		resp = new(Response)
 		resp.Status = "RECV_TIMEOUT"
